@@ -255,6 +255,9 @@ func SpecMatch(pattern string, hasWild bool, s string) bool {
 //@ func mq.Client.Close
 //@   trusted
 //@   assigns nothing
+//@ func mq.Client.IsClosed
+//@   trusted
+//@   assigns nothing
 //@ func mq.Client.Subscribe
 //@   trusted
 //@   defers cb
